@@ -35,6 +35,9 @@ def main():
             print(m['id'], 'PATTERN NOT FOUND'); results.append({'id': m['id'], 'error': 'pattern not found'}); continue
         open(path, 'w').write(src.replace(m['old'], m['new'], 1))
         rec = {'id': m['id'], 'check': m['check'], 'what': m['what'], 'expect': m.get('expect', 'fail')}
+        prev = [r for r in results if r.get('id') == m['id']]
+        if prev and 'baseline_tests' in prev[0] and not tests:
+            rec['baseline_tests'] = prev[0]['baseline_tests']
         try:
             if tests:
                 rc, o = sh('timeout -k 5 240 cargo test --offline 2>&1 | grep -E "^test result|error(\\[|:)" ; echo "rc=${PIPESTATUS[0]}"', cwd='/repo')
